@@ -4,11 +4,13 @@
 
 mod access;
 mod alloc;
+mod archive;
 mod driver;
 mod gen;
 mod known;
 mod layout;
 mod minimise;
+mod mutate;
 mod oracle;
 mod pipeline;
 mod prng;
